@@ -195,8 +195,7 @@ let handle (x : sexp) : (string * string) list =
       let n = String.length s and m = String.length sub in
       let rec go i = i + m <= n && (String.sub s i m = sub || go (i + 1)) in go 0 in
     let causes (r : run) : string list =
-      (if List.exists (fun (_, k) -> k = "status_with_data") r.faults then ["status-ignored-with-data"] else []) @
-      (if List.exists (fun (fid, _) -> kind_of (n_of_int fid) = FEntity) r.partials then ["taint-single-entity-fetch-ignored"] else []) in
+      (if List.exists (fun (_, k) -> k = "status_with_data") r.faults then ["status-ignored-with-data"] else []) in
     let add i (r : run) s d =
       let fl = String.concat "," (List.map (fun (f, k) -> Printf.sprintf "%d:%s" f k) r.faults) in
       res := (s, Printf.sprintf "%s run=%d faults=[%s] causes=[%s] %s" (List.hd (String.split_on_char ' ' d)) i fl
@@ -262,7 +261,7 @@ let handle (x : sexp) : (string * string) list =
       let faults fid = match List.assoc_opt (int_of_n fid) r.faults with Some k when not (is_partial k) -> Some (fault_of k) | _ -> None in
       let partials fid = match List.assoc_opt (int_of_n fid) r.partials with Some pi -> Some pi.pfault | None -> None in
       (try
-        let ((s, _), _) = load_t (partial_exchange answer root_answer kind_of faults partials) vre coords tree () in
+        let ((s, _), _) = load_t (partial_exchange answer root_answer kind_of faults partials) (tainted_indices vre) coords tree () in
         let o = finish root s in
         let mreqs = List.sort compare (List.map req_key s.ls_reqs) and ireqs = List.sort compare (List.map req_key r.reqs) in
         if mreqs <> ireqs then
